@@ -202,7 +202,7 @@ package analysis
 //@ func (*Analysis).cgForInStat
 //@   props C07 C06 C11
 //@   ensures[scope-stack-restored] a.curScope == old(a.curScope) && a.curFunc == old(a.curFunc)
-//@   loop all invariant a.curFunc == old(a.curFunc)
+//@   loop all invariant a.curFunc == old(a.curFunc) && a.curScope == subScope
 //@ end
 //@ func (*Analysis).cgForNumStat
 //@   props C07 C06 C11
@@ -292,4 +292,38 @@ package analysis
 //@   props C07 C06 C11
 //@   loop range:node.Exps#1 invariant [C07,C06,C11] a.curScope == scope && a.curFunc == old(a.curFunc)
 //@   at call cgExp#0 before assert[condition-is-analysed-in-the-scope-enclosing-the-statement] a.curScope == scope && scope == old(a.curScope)
+//@ end
+
+// ---- C07: the end-of-block checks run on the block's own scope ----
+// exitScope reports the locals of the CURRENT scope that were never read (type 4) and resolves pending local-function
+// calls; it is called when a block ends, while the current scope is still that block's own scope - not after the
+// enclosing scope has been restored, and after everything that belongs to the block (for repeat: the until-condition)
+// has been walked.
+//@ func (*Analysis).cgDoStat
+//@   props C07
+//@   at call exitScope#0 before assert[end-of-block-checks-run-on-the-blocks-own-scope] a.curScope == subScope
+//@ end
+//@ func (*Analysis).cgWhileStat
+//@   props C07
+//@   at call exitScope#0 before assert[end-of-block-checks-run-on-the-blocks-own-scope] a.curScope == subScope
+//@ end
+//@ func (*Analysis).cgRepeatStat
+//@   props C07
+//@   at call exitScope#0 before assert[end-of-block-checks-run-on-the-blocks-own-scope] a.curScope == subScope
+//@ end
+//@ func (*Analysis).cgForNumStat
+//@   props C07
+//@   at call exitScope#0 before assert[end-of-block-checks-run-on-the-blocks-own-scope] a.curScope == subScope
+//@ end
+//@ func (*Analysis).cgForInStat
+//@   props C07
+//@   at call exitScope#0 before assert[end-of-block-checks-run-on-the-blocks-own-scope] a.curScope == subScope
+//@ end
+//@ func (*Analysis).cgIfStat
+//@   props C07
+//@   at call exitScope#0 before assert[end-of-block-checks-run-on-the-blocks-own-scope] a.curScope == subScope
+//@ end
+//@ func (*Analysis).cgFuncDefExp
+//@   props C07
+//@   at call exitScope#0 before assert[end-of-function-checks-run-on-the-functions-own-scope] a.curScope == subFi.MainScope && a.curFunc == subFi
 //@ end
